@@ -410,8 +410,14 @@ def main():
         env = dict(os.environ)
         env.update(RUNTIME_ENV)
         log("replaying:", " ".join(cmd))
-        p = subprocess.run(cmd, env=env)
-        return 0 if p.returncode == 0 else 1
+        p = subprocess.run(cmd, env=env, stdout=subprocess.PIPE, stderr=subprocess.STDOUT, text=True)
+        log(p.stdout[-6000:])
+        reproduced = p.returncode != 0 or any(l.startswith("V\t") for l in p.stdout.splitlines())
+        if reproduced:
+            log(f"VIOLATION property={prop} replay={replay}")
+            return 1
+        log(f"OK property={prop} replay did not reproduce a violation on the current tree")
+        return 0
 
     try:
         results = run_plan(prop, tier, seed, workdir)
